@@ -148,8 +148,12 @@ def run(prop, tier, seed, results, violations, undecided, infra):
         violations.append(ob)
     # ---- 4. counterexamples for failing Verus obligations; triage of proof-internal failures
     need = [o for o in violations if o.get('kind') != 'bounded-harness' and not o.get('counterexample')] + [o for o in undecided if not o.get('unreached')]
-    if (need or infra) and b[0]:
-        bad_units = sorted(set(o.get('unit') for o in need if o.get('unit')) | set(
+    demoted_units = set(n for n in units if results.get(n) is not None and (results[n].get('demoted') or results[n].get('new_items')
+                        or any(f['id'] in X.DEMOTED for f in (results[n]['g'].functions if results[n].get('g') else []))))
+    if (need or infra or demoted_units) and b[0]:
+        # units in which the verifier could not read a function (demoted) or sees code outside the contracts get the
+        # longer search as well: there the bounded stage is the only source of a verdict
+        bad_units = sorted(set(o.get('unit') for o in need if o.get('unit')) | demoted_units | set(
             n for n in units if results.get(n) is not None and results[n].get('infra')))
         hit, tried = search_units(bad_units, 1000000, seed + 3, prop)
         extra['bounded'].append({'engine': 'native random search for a counterexample to failing obligations',
@@ -166,7 +170,7 @@ def run(prop, tier, seed, results, violations, undecided, infra):
                     o['status'] = 'failed'
                     undecided.remove(o)
                     violations.append(o)
-                if infra and not need:
+                if not need:
                     # the verifier could not decide (front end / extraction), but the real code fails a harness
                     o = {'id': 'harness::' + hit['harness'], 'kind': 'bounded-harness', 'fn': hit['harness'], 'status': 'failed',
                          'unit': bad_units[0] if bad_units else None, 'text': REG.harness_info(hit['harness']).get('bounds'),
